@@ -7,6 +7,7 @@ import (
 	"fmt"
 	"go/token"
 	"go/types"
+	"sort"
 	"strings"
 
 	"golang.org/x/tools/go/ssa"
@@ -94,11 +95,11 @@ func minBounds(v ssa.Value, depth int) map[string]bool {
 
 type senderShape struct {
 	fn      *ssa.Function
-	cb      *ssa.Call   // call of the send callback
-	data    ssa.Value   // running buffer D (phi or param)
-	n       ssa.Value   // chunk length N (High of the slice passed)
-	size    ssa.Value   // size argument
-	first   ssa.Value   // first argument
+	cb      *ssa.Call // call of the send callback
+	data    ssa.Value // running buffer D (phi or param)
+	n       ssa.Value // chunk length N (High of the slice passed)
+	size    ssa.Value // size argument
+	first   ssa.Value // first argument
 	param   *ssa.Parameter
 	problem string
 }
@@ -432,21 +433,29 @@ func ifOn(v ssa.Value) *ssa.If {
 func ruleConstants(c *Ctx, rule string) {
 	c.rule(rule, "the protocol constants match tunnel.proto: maximum frame payload 16384, initial window 65536, and the window advertised in new_stream / settings is the one the local receiver is constructed with")
 	w := c.W
-	want := map[string]int64{"chunkMax": 16384, "initialWindowSize": 65536}
-	for name, val := range want {
-		obj := w.Root.Types.Scope().Lookup(name)
-		cst, ok := obj.(*types.Const)
-		if !ok {
-			c.fail(rule, "constant "+name, "-", "constant not found (renamed?): cannot compare with the protocol's value")
+	// maximum frame payload: the constant every sender clamps its chunk with (found by use, not by name)
+	nS := 0
+	for _, fn := range c.senderImpls() {
+		s := analyseSender(fn)
+		if s.problem != "" {
+			c.fail(rule, w.Short(fn)+": recognised chunk loop", w.Pos(fn.Pos()), s.problem)
 			continue
 		}
-		v := cst.Val().ExactString()
-		c.check(v == fmt.Sprint(val), rule, "constant "+name, w.Pos(cst.Pos()), name+" = "+v, name+" = "+v+", the protocol requires "+fmt.Sprint(val))
+		nS++
+		var consts []string
+		for b := range minBounds(s.n, 0) {
+			if strings.HasPrefix(b, "const:") {
+				consts = append(consts, strings.TrimPrefix(b, "const:"))
+			}
+		}
+		sort.Strings(consts)
+		c.check(len(consts) == 1 && consts[0] == "16384", rule, w.Short(fn)+": maximum frame payload constant", w.At(s.cb), "chunk clamped with the constant 16384", "the sender clamps its chunk with the constant(s) "+strings.Join(consts, ", ")+"; the protocol's maximum frame payload is 16384")
 	}
+	c.floor(rule, nS, 2, "senders (flow-controlled, plain)")
 	// advertised == enforced
 	a := w.Anchors()
 	n := 0
-	for _, e := range c.realEmitSites() {
+	for _, e := range c.emitSeq() {
 		var adv ssa.Value
 		var where *ssa.Function
 		switch e.Kind {
@@ -463,6 +472,7 @@ func ruleConstants(c *Ctx, rule string) {
 			c.fail(rule, emitKey(w, e)+": advertised window is the constant", w.At(e.Alloc), "advertised window is "+desc(adv)+", not a constant")
 			continue
 		}
+		c.check(k == 65536, rule, emitKey(w, e)+": advertised window is the protocol's initial window", w.At(e.Alloc), "65536", fmt.Sprintf("this end advertises an initial window of %d; the protocol's initial window is 65536", k))
 		// local receiver constructor's window argument in `where`
 		found := false
 		if where != nil {
@@ -760,8 +770,13 @@ func ruleCreditIdentity(c *Ctx, rule string) {
 	}
 	win, _ := windowField(r.fc)
 	c.floor(rule, len(r.dequeue), 1, "flow-controlled dequeue methods (instantiations)")
-	for _, fn := range r.dequeue {
-		name := w.Short(fn)
+	for _, outer := range r.dequeue {
+		// the part that takes the item may have been split off into a helper: analyse the function that holds it
+		fn := w.coreWith(outer, func(in ssa.Instruction) bool {
+			ci, ok := in.(*ssa.Call)
+			return ok && calleeName(ci) == "(*container/list.List).Remove"
+		})
+		name := w.Short(outer)
 		rem := listCalls(fn, "Remove")
 		ms := measureCalls(fn)
 		if len(rem) != 1 || len(ms) != 1 {
@@ -796,9 +811,10 @@ func ruleCreditIdentity(c *Ctx, rule string) {
 		// the update callback gets exactly m: find the call of the updateWindow field (possibly in a deferred closure)
 		var upd *ssa.Call
 		var updFn *ssa.Function
-		cands := []*ssa.Function{fn}
-		for _, af := range fn.AnonFuncs {
-			cands = append(cands, af)
+		cands := []*ssa.Function{}
+		for _, f := range w.helperClosure(outer) {
+			cands = append(cands, f)
+			cands = append(cands, f.AnonFuncs...)
 		}
 		for _, f := range cands {
 			allInstrs(f, func(in ssa.Instruction) {
@@ -879,6 +895,30 @@ func creditArgIs(v ssa.Value, m *ssa.Call, deq *ssa.Function) (bool, string) {
 	}
 	if stripToCall(v) == m {
 		return true, ""
+	}
+	// result of the helper that took the item: every value it can return there is the measure or the constant 0
+	if leaves, _, ok := returnLeavesOfCall(v); ok {
+		sawM := false
+		for _, l := range leaves {
+			for {
+				if cv, isCv := l.(*ssa.Convert); isCv {
+					l = cv.X
+					continue
+				}
+				break
+			}
+			if stripToCall(l) == m {
+				sawM = true
+				continue
+			}
+			if k, isK := constInt(l); isK && k == 0 {
+				continue
+			}
+			return false, desc(l) + " (returned by the helper that dequeues)"
+		}
+		if sawM {
+			return true, ""
+		}
 	}
 	// load of a captured cell
 	u, ok := v.(*ssa.UnOp)
@@ -1010,8 +1050,12 @@ func ruleQueueDiscipline(c *Ctx, rule string) {
 		}
 		c.check(okSig, rule, name+": wakes the consumer when the queue was empty", w.Pos(fn.Pos()), "Signal on the empty->non-empty transition (or unconditionally)", "accept does not wake a waiting consumer when it makes the queue non-empty ("+why+"): a blocked reader is never released (lost wake-up)")
 	}
-	for _, fn := range r.dequeue {
-		name := w.Short(fn)
+	for _, outer := range r.dequeue {
+		fn := w.coreWith(outer, func(in ssa.Instruction) bool {
+			ci, ok := in.(*ssa.Call)
+			return ok && calleeName(ci) == "(*container/list.List).Front"
+		})
+		name := w.Short(outer)
 		front := listCalls(fn, "Front")
 		c.check(len(front) == 1 && len(listCalls(fn, "Back")) == 0, rule, name+": dequeue from the front", w.Pos(fn.Pos()), "Front", "dequeue does not take exactly the front element")
 		if len(front) != 1 {
@@ -1404,7 +1448,7 @@ func ruleUpdateOffLockAndLoop(c *Ctx, rule6, rule7 string) {
 			continue
 		}
 		reach := w.sameGoroutineReach(loop, nil)
-		for _, e := range c.realEmitSites() {
+		for _, e := range c.emitSeq() {
 			if !strings.HasSuffix(e.Kind, "_WindowUpdate") {
 				continue
 			}
